@@ -27,6 +27,11 @@ g_router._spawn_subprocess = lambda job_spec, addr, job_id: None
 repo_env.STUBS_IN_FORCE.append("gateway.server.deserialize -> identity (pickle is trusted C code); _spawn_subprocess -> no-op")
 
 
+def fresh(s: str) -> str:
+    """An equal but distinct string object, as unpickling a report produces (the pickle layer itself is replaced by identity)."""
+    return bytes(s, "utf-8").decode("utf-8") if s else s
+
+
 BIG = [bytes([k]) * 900_000 + b"\x00\xff" for k in (7, 8, 9, 10, 11)]
 
 
@@ -108,8 +113,23 @@ class Gateway(Harness):
         router = JobRouter(poller)
         J = params["jobs"]
         # jobs come into being the way they do in production: through spawn_job (subprocess spawning stubbed)
+        class Uid:
+            """Like uuid.UUID: not a str, equal only to another Uid of the same value."""
+
+            def __init__(self, v):
+                self.v = v
+
+            def __str__(self):
+                return self.v
+
+            def __eq__(self, other):
+                return isinstance(other, Uid) and other.v == self.v
+
+            def __hash__(self):
+                return hash(("uid", self.v))
+
         ids = iter([f"job{j}" for j in range(J)] + [f"extra{k}" for k in range(8)])
-        g_router.uuid = types.SimpleNamespace(uuid4=lambda: next(ids))
+        g_router.uuid = types.SimpleNamespace(uuid4=lambda: Uid(next(ids)))
         spec0 = types.SimpleNamespace(use_slurm=False, hosts=1, workers_per_host=1, envvars={}, benchmark_name="x", job_instance=None)
         jids = [router.spawn_job(spec0) for _ in range(J)]
         socks = {j: router.jobs[j].socket for j in jids}
@@ -130,15 +150,15 @@ class Gateway(Harness):
             j = jids[ch.pick(J, f"job{i}")]
             ts = ch.int(f"ts{i}", 0, None)
             if kind == 0:
-                rep = ControllerReport(j, f"{i + 1}0.00", ts, [])
+                rep = ControllerReport(fresh(j), f"{i + 1}0.00", ts, [])
                 seen[j].append((ts, f"{i + 1}0.00"))
             elif kind == 1:
                 ds = DatasetId("t", ["0", "1"][ch.pick(2, f"ds{i}")])
                 val = BIG[i % len(BIG)] if (params.get("big") and ds.output == "1") else bytes([i, 255, 0, 10])
-                rep = ControllerReport(j, None, ts, [(ds, val)])
+                rep = ControllerReport(fresh(j), None, ts, [(ds, val)])
                 uploaded[(j, ds)] = val
             else:
-                rep = ControllerReport(j, JobProgressShutdown, ts, [])
+                rep = ControllerReport(fresh(j), fresh(JobProgressShutdown), ts, [])
                 shut.add(j)
             copies = 2 if ch.flag(f"dup{i}") else 1
             for _ in range(copies):
